@@ -23,6 +23,7 @@ func baseCfg(r *Rng) Config {
 	default:
 		cfg.InitIDs = []uint32{0}
 	}
+	cfg.StateCBReenters = r.chance(0.2)
 	return cfg
 }
 
@@ -193,7 +194,9 @@ func genC06(r *Rng) *Scenario {
 	case 1:
 		cfg.Frag = []int{int(r.between(1, 3)), int(r.between(1, 7))}
 	}
-	sc.Ops = append(sc.Ops, Op{AtUs: 0, Actor: 1, Kind: "handle", Handler: 1})
+	if r.chance(0.85) {
+		sc.Ops = append(sc.Ops, Op{AtUs: 0, Actor: 1, Kind: "handle", Handler: 1})
+	} // else: a client that never registered a handler (publish-only use)
 	sc.Ops = append(sc.Ops, Op{AtUs: 1, Actor: 0, Kind: "connect"})
 	t := rtt(cfg) + 10
 	// a blocked call whose acknowledgement is among the well-formed prefix
@@ -232,6 +235,14 @@ func genC06(r *Rng) *Scenario {
 		p := &Pkt{Type: TPublish, QoS: q, Topic: topics[r.IntN(len(topics))], Pay: fmt.Sprintf("in%d", i)}
 		if q > 0 {
 			p.ID = uint16(10 + i)
+		}
+		if r.chance(0.2) {
+			// a complete inbound QoS 2 exchange (PUBLISH, then its PUBREL)
+			p.QoS, p.ID = 2, uint16(10+i)
+			sc.Script = append(sc.Script, Out{Conn: 1, AtUs: t, Kind: "pkt", Pkt: p, Class: "wellformed-q2"})
+			t += r.between(1, 200)
+			sc.Script = append(sc.Script, Out{Conn: 1, AtUs: t, Kind: "pkt", Pkt: &Pkt{Type: TPubRel, ID: p.ID}, Class: "wellformed-q2"})
+			continue
 		}
 		sc.Script = append(sc.Script, Out{Conn: 1, AtUs: t, Kind: "pkt", Pkt: p, Class: "wellformed"})
 	}
